@@ -552,10 +552,25 @@ func (cr *concRun) checkStaleLoad() {
 					continue
 				}
 				op := h.Op
-				if op.K != k {
+				wrote := false
+				if op.Kind == "invalidateall" {
+					// C09 counts InvalidateAll for keys that are present while being reloaded (its effect
+					// on loads of absent keys is undefined): it is a write of k iff the load is a reload
+					// and this very call reported the removal of k
+					if !l.Reload {
+						continue
+					}
+					for _, ev := range cr.r.Events {
+						if ev.Atomic && ev.K == k && ev.Cause == otter.CauseInvalidation && ev.Task == h.Task && ev.OpIdx == h.Idx && ev.Seq > l.Enter {
+							wrote = true
+						}
+					}
+					if wrote {
+						cr.probe["invalidateall-inside-reload-window"]++
+					}
+				} else if op.K != k {
 					continue
 				}
-				wrote := false
 				switch op.Kind {
 				case "set":
 					wrote = true
